@@ -41,7 +41,9 @@ class RuntimeAnalysis(ForwardExtra[RuntimeFrame, EmptyLattice]):
 
     def has_quantum_runtime(self, method: ir.Method) -> bool:
         """Return True if the method has quantum runtime operations, False otherwise."""
-        frame, _ = self.run_analysis(method)
+        # errors must not be swallowed: the frame left behind by a failed analysis says
+        # nothing about the statements that were never reached.
+        frame, _ = self.run_analysis(method, no_raise=False)
         return frame.is_quantum
 
 
@@ -82,9 +84,8 @@ class Scf(interp.MethodTable):
     def for_loop(self, _interp: RuntimeAnalysis, frame: RuntimeFrame, stmt: scf.For):
         args = (_interp.lattice.top(),) * (len(stmt.initializers) + 1)
         with _interp.new_frame(stmt, has_parent_access=True) as body_frame:
-            result = _interp.run_ssacfg_region(
-                body_frame, stmt.body, (_interp.lattice.bottom(),)
-            )
+            # bind the loop variable and every loop-carried block argument
+            result = _interp.run_ssacfg_region(body_frame, stmt.body, args)
 
         frame.is_quantum = frame.is_quantum or body_frame.is_quantum
         frame.quantum_stmts.update(body_frame.quantum_stmts)
@@ -114,7 +115,8 @@ class Func(interp.MethodTable):
     def call(self, _interp: RuntimeAnalysis, frame: RuntimeFrame, stmt: func.Call):
         # Check if the called method is quantum
         callee_result = stmt.callee.hints.get("const")
-        args = (_interp.lattice.top(),) * len(stmt.inputs)
+        # the first block argument of a lambda body is the lambda itself
+        args = (_interp.lattice.top(),) * (len(stmt.inputs) + 1)
         if (
             isinstance(callee_result, const.PartialLambda)
             and (trait := callee_result.code.get_trait(ir.CallableStmtInterface))
